@@ -2,6 +2,7 @@
   C03 — not(G) succeeds once, without bindings, iff G has no answer.
 -/
 import SuironVerif.Lemmas.Exhausted
+import SuironVerif.Lemmas.EngineRefine
 namespace Suiron.C03
 
 /-- the first request on a fresh `not` node asks G's node exactly once; `not` succeeds with the
@@ -39,5 +40,46 @@ theorem not_then_exhausted (fo : FloatOps) (kb : KB) (f : Nat) (σ : Subst) (h :
   obtain ⟨r, _, hst⟩ := Res.bind_eq_ok.mp hst
   cases hst
   exact Exhausted.notDone _ _ _ _ _
+
+/-- "G has no answer" in the reference sense, for every cut-free G and knowledge base: asked once, G's node
+    reports none exactly as the reference search for G (started under the same substitution set) runs to the
+    empty stack without showing an answer, and reports σ' exactly as that search shows σ' as its FIRST answer. -/
+theorem inner_search_is_reference (fo : FloatOps) (kb : KB)
+    (hkb : ∀ key rs, kb.get key = some rs → ∀ r ∈ rs, r.body.isNil = true ∨ Spec.pureG r.body = true)
+    (G : Goal) (hp : Spec.pureG G = true) (σ : Subst) (g0 g1 : Suiron.G) (hg : Spec.GOK g0) (h : Node)
+    (hmk : mkNode fo.showF kb G σ g0 = .ok (h, g1)) (f : Nat) (r : Step) (hr : next fo kb f h g1 = .ok r) :
+    (r.sol = none → Spec.PSteps fo kb ⟨[.goals [G] σ], g0.counter, g0.out⟩ ⟨[], r.g.counter, r.g.out⟩) ∧
+    (∀ σ', r.sol = some σ' → ∃ S, Spec.PSteps fo kb ⟨[.goals [G] σ], g0.counter, g0.out⟩ ⟨.goals [] σ' :: S, r.g.counter, r.g.out⟩) := by
+  obtain ⟨hmk1, hc, ho, hg1, hpn⟩ := Spec.mk_steps fo kb G σ g0 h g1 [] [] hmk hp hg
+  have href := ((Spec.next_refines_pure fo kb (Spec.pureKB_of_rules kb hkb) f).1 h g1 r [] [] hr hpn hg1).1
+  rw [hc, ho] at href
+  constructor
+  · intro hn; rw [hn] at href; exact hmk1.trans href.1
+  · intro σ' hs; rw [hs] at href; exact ⟨_, hmk1.trans href⟩
+
+/-- C03 against the reference: the goal `not(G)` (G cut-free), asked for the first time, answers with its own
+    unchanged substitution set only if the reference search for G finitely fails, and answers none only if that
+    search shows an answer. -/
+theorem C03_reference (fo : FloatOps) (kb : KB)
+    (hkb : ∀ key rs, kb.get key = some rs → ∀ r ∈ rs, r.body.isNil = true ∨ Spec.pureG r.body = true)
+    (G : Goal) (gs : GoalList) (hp : Spec.pureG G = true) (σ : Subst) (g0 g1 : Suiron.G) (hg : Spec.GOK g0) (N : Node)
+    (hmk : mkNode fo.showF kb (.not (.cons G gs)) σ g0 = .ok (N, g1)) (f : Nat) (st : Step)
+    (hst : next fo kb (f+1) N g1 = .ok st) :
+    (st.sol = some σ ∨ st.sol = none) ∧
+    (st.sol = some σ → Spec.PSteps fo kb ⟨[.goals [G] σ], g0.counter, g0.out⟩ ⟨[], st.g.counter, st.g.out⟩) ∧
+    (st.sol = none → ∃ σ' S, Spec.PSteps fo kb ⟨[.goals [G] σ], g0.counter, g0.out⟩ ⟨.goals [] σ' :: S, st.g.counter, st.g.out⟩) := by
+  simp only [mkNode] at hmk
+  obtain ⟨m, hm, hmk⟩ := Res.bind_eq_ok.mp hmk
+  cases hmk
+  rw [not_once] at hst
+  obtain ⟨r, hr, hst⟩ := Res.bind_eq_ok.mp hst
+  cases hst
+  obtain ⟨h1, h2⟩ := inner_search_is_reference fo kb hkb G hp σ g0 m.2 hg m.1 hm f r hr
+  cases hs : r.sol with
+  | none =>
+    refine ⟨Or.inl (by simp), fun _ => h1 hs, fun hn => by simp at hn⟩
+  | some σ' =>
+    obtain ⟨S, hS⟩ := h2 σ' hs
+    refine ⟨Or.inr (by simp), fun hn => by simp at hn, fun _ => ⟨σ', S, hS⟩⟩
 
 end Suiron.C03
